@@ -136,3 +136,14 @@ check("C03",
       "symbolic execution of the real Python code with z3 (symx), uninterpreted transcendental kernels with ground axioms, "
       "concrete replay",
       "DESIGN.md 4/C03")
+check("C04",
+      "Bounded symbolic execution of Mesh.grade (WireChopManager.grade, Chop.copy_preserving/invert, Axis.copy_grading, "
+      "WirePropagateManager.copy_neighbours/propagate_grading, Grading.inverted/__eq__, Block.format_grading) on two "
+      "stacked lofts with symbolic, per-job related edge lengths, symbolic chop sizes/ratios, three preserve modes, one "
+      "or two sections, aligned or x-reversed neighbour. Each wire's specification is decoded with the harness' own "
+      "progression law; z3 shows equal cell sequences on shared edges, the preserved size on all eight x edges at the same "
+      "geometric end, and simpleGrading only for equal gradings.",
+      "counts concrete (2, 3; thorough 4); brentq replaced by its contract; curved edges outside; size preserved from a "
+      "ratio-defined chop only in the thorough tier",
+      "symbolic execution of the real Python code with z3 (symx), independent decoding oracle, concrete replay",
+      "DESIGN.md 4/C04")
